@@ -131,6 +131,10 @@ std::unique_ptr<NodeResult> FunctionCallNode::evaluate(PSC::Context &ctx) {
                     var->get<PSC::Pointer>() = argRes->get<PSC::Pointer>();
                     break;
                 case PSC::DataType::COMPOSITE:
+                    if (!var->get<PSC::Composite>().hasSameLayout(argRes->get<PSC::Composite>())) {
+                        delete var;
+                        throw PSC::RuntimeError(token, ctx, "Cannot pass a record whose type has a different definition");
+                    }
                     var->get<PSC::Composite>() = argRes->get<PSC::Composite>();
                     break;
                 case PSC::DataType::NONE:
